@@ -28,8 +28,12 @@ pub struct TState {
     pub status: Status,
     pub pending: Option<Pending>,
     pub inject: shim::Inject,
-    /// nested deliveries hosted by this thread are started through this slot
-    pub nest: Option<i32>,
+    /// request to run nested logical thread `n` on this OS thread (set by the controller)
+    pub nest: Option<usize>,
+    /// this logical thread is a nested delivery hosted by that thread
+    pub host: Option<usize>,
+    /// the nested logical thread currently running on top of this one
+    pub hosting: Option<usize>,
     pub own_steps: usize,
 }
 
@@ -45,6 +49,8 @@ pub struct Inner {
     pub next_alloc: usize,
     pub sites: HashMap<(String, u32), String>,
     pub abort: bool,
+    /// body of nested logical threads (called with the nested thread's id)
+    pub nest_fn: Option<fn(usize)>,
     pub extra_enabled: Option<Box<dyn Fn(&Inner, usize, &Pending) -> bool + Send>>,
 }
 
@@ -54,8 +60,50 @@ pub struct Sched {
 }
 
 thread_local! {
-    pub static TID: Cell<Option<usize>> = Cell::new(None);
-    pub static IN_DELIVERY: Cell<usize> = Cell::new(0);
+    pub static TID: Cell<Option<usize>> = const { Cell::new(None) };
+    pub static IN_DELIVERY: Cell<usize> = const { Cell::new(0) };
+    /// >0 while harness code (scheduler, logging, test actions) runs: its allocations do not count
+    pub static IN_HARNESS: Cell<usize> = const { Cell::new(0) };
+}
+
+/// heap operations performed by library code while a (simulated) delivery is running
+pub static HANDLER_HEAP_OPS: std::sync::atomic::AtomicUsize = std::sync::atomic::AtomicUsize::new(0);
+
+pub struct HarnessGuard;
+impl HarnessGuard {
+    pub fn new() -> Self {
+        IN_HARNESS.with(|h| h.set(h.get() + 1));
+        HarnessGuard
+    }
+}
+impl Drop for HarnessGuard {
+    fn drop(&mut self) {
+        IN_HARNESS.with(|h| h.set(h.get() - 1));
+    }
+}
+
+pub struct CountingAlloc;
+unsafe impl std::alloc::GlobalAlloc for CountingAlloc {
+    unsafe fn alloc(&self, l: std::alloc::Layout) -> *mut u8 {
+        note_heap_op();
+        std::alloc::System.alloc(l)
+    }
+    unsafe fn dealloc(&self, p: *mut u8, l: std::alloc::Layout) {
+        note_heap_op();
+        std::alloc::System.dealloc(p, l)
+    }
+    unsafe fn realloc(&self, p: *mut u8, l: std::alloc::Layout, n: usize) -> *mut u8 {
+        note_heap_op();
+        std::alloc::System.realloc(p, l, n)
+    }
+}
+
+#[inline]
+fn note_heap_op() {
+    let in_deliv = IN_DELIVERY.try_with(|d| d.get()).unwrap_or(0);
+    if in_deliv > 0 && IN_HARNESS.try_with(|h| h.get()).unwrap_or(1) == 0 {
+        HANDLER_HEAP_OPS.fetch_add(1, std::sync::atomic::Ordering::SeqCst);
+    }
 }
 
 static mut SCHED: Option<Arc<Sched>> = None;
@@ -77,6 +125,7 @@ pub fn install(sites: HashMap<(String, u32), String>) -> Arc<Sched> {
             next_alloc: 0,
             sites,
             abort: false,
+            nest_fn: None,
             extra_enabled: None,
         }),
         cv: Condvar::new(),
@@ -129,6 +178,7 @@ impl Inner {
 }
 
 fn hook_pre(e: &shim::Event) -> shim::Inject {
+    let _hg = HarnessGuard::new();
     let s = match sched() {
         Some(s) => s,
         None => return shim::Inject::None,
@@ -142,6 +192,7 @@ fn hook_pre(e: &shim::Event) -> shim::Inject {
 }
 
 fn hook_post(e: &shim::Event, result: u64, ok: bool) {
+    let _hg = HarnessGuard::new();
     let s = match sched() {
         Some(s) => s,
         None => return,
@@ -215,6 +266,7 @@ fn hook_post(e: &shim::Event, result: u64, ok: bool) {
 impl Sched {
     /// a harness-level event point (e.g. "use snapshot", "run action")
     pub fn point(&self, text: String) {
+        let _hg = HarnessGuard::new();
         let tid = match TID.with(|t| t.get()) {
             Some(t) => t,
             None => return,
@@ -239,6 +291,23 @@ impl Sched {
             }
             if g.granted == Some(tid) {
                 g.granted = None;
+                if let Some(n) = g.threads[tid].nest.take() {
+                    // run the nested delivery `n` on this OS thread; this thread stays where it is
+                    g.threads[tid].hosting = Some(n);
+                    g.threads[n].status = Status::Running;
+                    let f = g.nest_fn;
+                    drop(g);
+                    TID.with(|t| t.set(Some(n)));
+                    if let Some(f) = f {
+                        f(n);
+                    }
+                    TID.with(|t| t.set(Some(tid)));
+                    g = self.inner.lock().unwrap();
+                    g.threads[n].status = Status::Done;
+                    g.threads[tid].hosting = None;
+                    self.cv.notify_all();
+                    continue;
+                }
                 g.threads[tid].status = Status::Running;
                 g.threads[tid].pending = None;
                 let inj = g.threads[tid].inject;
@@ -257,8 +326,16 @@ impl Sched {
 
     pub fn add_thread(&self) -> usize {
         let mut g = self.inner.lock().unwrap();
-        g.threads.push(TState { status: Status::NotStarted, pending: None, inject: shim::Inject::None, nest: None, own_steps: 0 });
+        g.threads.push(TState { status: Status::NotStarted, pending: None, inject: shim::Inject::None, nest: None, host: None, hosting: None, own_steps: 0 });
         g.threads.len() - 1
+    }
+
+    /// declare a nested delivery thread hosted by `host` (it has no OS thread of its own)
+    pub fn add_nested(&self, host: usize) -> usize {
+        let n = self.add_thread();
+        let mut g = self.inner.lock().unwrap();
+        g.threads[n].host = Some(host);
+        n
     }
 
     /// spawn a logical thread running `f`
@@ -285,7 +362,18 @@ impl Sched {
 
     fn enabled(g: &Inner, tid: usize) -> bool {
         let t = &g.threads[tid];
-        if t.status != Status::Pending {
+        if t.status == Status::NotStarted {
+            // a nested delivery can start while its host is parked at a real operation
+            return match t.host {
+                Some(h) => {
+                    let ht = &g.threads[h];
+                    ht.status == Status::Pending && ht.hosting.is_none()
+                        && ht.pending.as_ref().map(|p| p.name != "start").unwrap_or(false)
+                }
+                None => false,
+            };
+        }
+        if t.status != Status::Pending || t.hosting.is_some() {
             return false;
         }
         let p = t.pending.as_ref().unwrap();
@@ -311,7 +399,7 @@ impl Sched {
             while g.granted.is_some() || g.threads.iter().any(|t| t.status == Status::Running) {
                 g = self.cv.wait(g).unwrap();
             }
-            if g.threads.iter().all(|t| t.status == Status::Done) {
+            if g.threads.iter().all(|t| t.status == Status::Done || (t.status == Status::NotStarted && t.host.is_some() && g.threads[t.host.unwrap()].status == Status::Done)) {
                 return "done";
             }
             let enabled: Vec<usize> = (0..g.threads.len()).filter(|&t| Self::enabled(&g, t)).collect();
@@ -327,6 +415,15 @@ impl Sched {
             }
             let k = choose(&enabled, step, &g);
             let tid = enabled[k % enabled.len()];
+            if g.threads[tid].status == Status::NotStarted {
+                // start the nested delivery on its host's OS thread (not a recorded step)
+                let h = g.threads[tid].host.unwrap();
+                g.threads[h].nest = Some(tid);
+                g.threads[tid].status = Status::Running;
+                g.granted = Some(h);
+                self.cv.notify_all();
+                continue;
+            }
             // "start" pseudo-steps are not recorded in the schedule
             let is_start = g.threads[tid].pending.as_ref().map(|p| p.name == "start").unwrap_or(false);
             if !is_start {
